@@ -154,6 +154,14 @@ func c05R2(c *Ctx, rule string) {
 		if call, ok := stripConv(bsl.High).(*ssa.Call); ok && strings.Contains(calleeName(&call.Call), "bigEndian).Uint16") {
 			l2, h2, ok2 := constSliceOf(call.Call.Args[len(call.Call.Args)-1], buf)
 			okLen = ok2 && l2 == 3 && h2 == 5 && instrDominates(hdr, call)
+		} else if lo, n, loads, okR := beRead(stripIntWiden(stripConv(bsl.High)), buf); okR {
+			// int(buffer[3])<<8 | int(buffer[4])
+			okLen = lo == 3 && n == 2
+			for _, l := range loads {
+				if li, isI := l.(ssa.Instruction); isI && !instrDominates(hdr, li) {
+					okLen = false
+				}
+			}
 		}
 	}
 	c.Check(okLen, rule, "body read fills exactly buffer[:declared length]", c.at(body), "buffer[:int(BE16(buffer[3:5]))], decoded after the header read", "the body read's size is "+d+", not the length declared in bytes 3..4 of the header just read")
@@ -275,65 +283,44 @@ func c05R4(c *Ctx, rule string) {
 		fromPool = true
 	}
 	c.Check(fromPool, rule, "the bytes written are this call's pooled buffer", c.at(writes[0]), "Conn.Write(*writeBuf), writeBuf = pool.Get()", "the underlying Write sends "+Expr(written)+", not the buffer obtained from the pool in this call")
-	// appends: length bytes then payload
+	// appends: length bytes then payload (any of append(b, hi, lo), binary.BigEndian.AppendUint16(b, uint16(len)), append(b, in...))
 	var appendStores []*ssa.Store
 	lenBytes, payload := false, false
 	limitOK := false
+	var seq []absByte
 	allInstrs(w, func(i ssa.Instruction) {
 		st, ok := i.(*ssa.Store)
 		if !ok || st.Addr != bufPtr {
 			return
 		}
 		call, isApp := st.Val.(*ssa.Call)
-		if !isApp || calleeName(&call.Call) != "builtin.append" {
+		if !isApp {
+			return
+		}
+		_, bytes, okA := absAppend(call)
+		if !okA {
 			return
 		}
 		appendStores = append(appendStores, st)
-		e := Expr(call.Call.Args[1])
-		if strings.Contains(e, "varargs") {
-			// the two length bytes: find the stored elements
-			if sl, ok := call.Call.Args[1].(*ssa.Slice); ok {
-				if al, ok := sl.X.(*ssa.Alloc); ok {
-					// element 0 must be byte(len(in) >> 8), element 1 byte(len(in) & 0xff) (or byte(len(in)))
-					isLenIn := func(v ssa.Value) bool {
-						lc, ok := stripConv(v).(*ssa.Call)
-						return ok && calleeName(&lc.Call) == "builtin.len" && lc.Call.Args[0] == in
-					}
-					els := map[int64]ssa.Value{}
-					for _, r := range *al.Referrers() {
-						if ia, ok := r.(*ssa.IndexAddr); ok {
-							k, _ := intConst(ia.Index)
-							for _, rr := range *ia.Referrers() {
-								if s2, ok := rr.(*ssa.Store); ok {
-									els[k] = s2.Val
-								}
-							}
-						}
-					}
-					hiOK, loOK := false, false
-					if cv, ok := els[0].(*ssa.Convert); ok {
-						if bo, ok := cv.X.(*ssa.BinOp); ok && bo.Op == token.SHR && isLenIn(bo.X) && isK(bo.Y, 8) {
-							hiOK = true
-						}
-					}
-					if cv, ok := els[1].(*ssa.Convert); ok {
-						if bo, ok := cv.X.(*ssa.BinOp); ok && bo.Op == token.AND && isLenIn(bo.X) && isK(bo.Y, 255) {
-							loOK = true
-						}
-						if isLenIn(cv.X) {
-							loOK = true
-						}
-					}
-					if len(els) == 2 && hiOK && loOK {
-						lenBytes = true
-					}
-				}
+		seq = append(seq, bytes...)
+	})
+	{
+		isLenIn := func(v ssa.Value) bool {
+			lc, ok := stripConv(v).(*ssa.Call)
+			return ok && calleeName(&lc.Call) == "builtin.len" && lc.Call.Args[0] == in
+		}
+		if len(seq) >= 3 && !seq[0].isConst && !seq[0].spread && seq[0].shift == 8 && isLenIn(seq[0].src) && !seq[1].isConst && !seq[1].spread && seq[1].shift == 0 && isLenIn(seq[1].src) {
+			lenBytes = true
+		}
+		for _, b := range seq {
+			if b.spread && b.src == in {
+				payload = true
 			}
 		}
-		if call.Call.Args[1] == in {
-			payload = true
+		if len(seq) != 3 {
+			lenBytes = lenBytes && len(seq) == 3
 		}
-	})
+	}
 	c.Check(lenBytes && payload, rule, "record = prefix ‖ byte(len>>8) ‖ byte(len&0xff) ‖ payload", c.atFn(w), "append(hi, lo) then append(in...)", fmt.Sprintf("length bytes from len(in) found=%v, payload appended=%v", lenBytes, payload))
 	// the prefix survives: every value stored into the pooled cell is built on the pooled buffer itself
 	// (append(*writeBuf, …), (*writeBuf)[:k]) or is a fresh buffer that first receives the pooled prefix
@@ -346,6 +333,9 @@ func c05R4(c *Ctx, rule string) {
 		case *ssa.Slice:
 			return isLoad(x.X)
 		case *ssa.Call:
+			if base, _, okA := absAppend(x); okA && isLoad(base) {
+				return true
+			}
 			if calleeName(&x.Call) != "builtin.append" {
 				return false
 			}
@@ -455,6 +445,24 @@ func c05R4(c *Ctx, rule string) {
 				}
 			})
 			if len(consts) == 3 && consts[0] == 23 && consts[1] == 3 && consts[2] == 3 {
+				okPrefix = true
+			}
+			// the same prefix built by a chain of appends (append(b, 23); binary.BigEndian.AppendUint16(b, 0x0303) …)
+			var chain []absByte
+			allConst := true
+			allInstrs(an, func(i ssa.Instruction) {
+				if call, ok := i.(*ssa.Call); ok {
+					if _, bytes, okA := absAppend(call); okA {
+						for _, b := range bytes {
+							if !b.isConst {
+								allConst = false
+							}
+						}
+						chain = append(chain, bytes...)
+					}
+				}
+			})
+			if allConst && len(chain) == 3 && chain[0].k == 23 && chain[1].k == 3 && chain[2].k == 3 {
 				okPrefix = true
 			}
 		}
